@@ -698,6 +698,16 @@ End Reductions.
 (* ------------------------------------------------------------------ *)
 (* The evaluated instance LS12 satisfies the hypotheses of the reductions *)
 
+Lemma ls_grad_reg_length reg p b u : length (ls_grad_reg reg p b u) = length p.
+Proof.
+  unfold ls_grad_reg. rewrite vred_length. apply vadd_length; [apply batch_grad_length|apply vscale_length].
+Qed.
+Lemma ls_grad_reg_proper reg p p' b u : p =v= p' -> ls_grad_reg reg p b u =v= ls_grad_reg reg p' b u.
+Proof.
+  intros E. unfold ls_grad_reg. rewrite !vred_veq. apply vadd_proper; [apply batch_grad_proper; exact E|].
+  apply vscale_proper; [reflexivity|exact E].
+Qed.
+
 Lemma ls_copt_init_proper p p' : p =v= p' -> ls_copt_init p =v= ls_copt_init p'.
 Proof. intros E. unfold ls_copt_init. rewrite (veq_length _ _ E). reflexivity. Qed.
 
@@ -758,41 +768,41 @@ Qed.
 Notation lsclient := (client (K := key) (B := list example)).
 
 (* FedProx with mu == 0 *)
-Lemma ls_fedprox_mu0_runs co so mu (cohorts : list (list lsclient)) p os : mu == 0 ->
+Lemma ls_fedprox_mu0_runs reg co so mu (cohorts : list (list lsclient)) p os : mu == 0 ->
   Forall (fun cl => NoDup (map c_id cl)) cohorts ->
   exists q s dgs q' s' dgs',
-    fedprox_runs ls_grad split_key ls_copt_init (ls_copt_apply co) (ls_sopt so) mu (p, os) cohorts = Some (q, s, dgs) /\
-    fedavg_runs ls_grad split_key ls_copt_init (ls_copt_apply co) (ls_sopt so) (p, os) cohorts = Some (q', s', dgs') /\
+    fedprox_runs (ls_grad_reg reg) split_key ls_copt_init (ls_copt_apply co) (ls_sopt so) mu (p, os) cohorts = Some (q, s, dgs) /\
+    fedavg_runs (ls_grad_reg reg) split_key ls_copt_init (ls_copt_apply co) (ls_sopt so) (p, os) cohorts = Some (q', s', dgs') /\
     q =v= q' /\ s =v= s' /\ Forall2 (fun dg dg' => map fst dg = map fst dg') dgs dgs'.
 Proof.
   intros Hm ND.
-  eapply (fedprox_mu0_runs_eq_fedavg ls_grad split_key ls_copt_init (ls_copt_apply co) (ls_sopt so) veq veq);
+  eapply (fedprox_mu0_runs_eq_fedavg (ls_grad_reg reg) split_key ls_copt_init (ls_copt_apply co) (ls_sopt so) veq veq);
     try eassumption; try reflexivity.
   - apply ls_copt_init_proper.
   - intros. apply ls_apply_proper; assumption.
   - intros. apply ls_apply_length; assumption.
-  - intros. apply batch_grad_proper; assumption.
-  - intros. apply batch_grad_length.
+  - intros. apply ls_grad_reg_proper; assumption.
+  - intros. apply ls_grad_reg_length.
   - intros. apply ls_apply_proper; assumption.
 Qed.
 
 (* HypCluster, one cluster: some example in every round, any SGD-family server optimizer *)
-Lemma ls_hypcluster_runs co so (cohorts : list (list lsclient)) p os :
+Lemma ls_hypcluster_runs reg co so (cohorts : list (list lsclient)) p os :
   Forall (fun cl => NoDup (map c_id cl)) cohorts -> Forall (fun cl => (0 < total_examples cl)%Z) cohorts ->
   exists q s q' s' dgs,
-    iter_rounds (hypcluster ls_grad split_key ls_split_pair ls_copt_init (ls_copt_apply co) (ls_sopt so) (fun _ => O)) [(p, os)] cohorts
+    iter_rounds (hypcluster (ls_grad_reg reg) split_key ls_split_pair ls_copt_init (ls_copt_apply co) (ls_sopt so) (fun _ => O)) [(p, os)] cohorts
       = Some [(q, s)] /\
-    fedavg_runs ls_grad split_key ls_copt_init (ls_copt_apply co) (ls_sopt so) (p, os) (map (map (rekey ls_split_pair)) cohorts)
+    fedavg_runs (ls_grad_reg reg) split_key ls_copt_init (ls_copt_apply co) (ls_sopt so) (p, os) (map (map (rekey ls_split_pair)) cohorts)
       = Some (q', s', dgs) /\ q =v= q' /\ s =v= s'.
 Proof.
   intros ND Hpos.
-  eapply (hypcluster_runs_eq_fedavg ls_grad split_key ls_split_pair ls_copt_init (ls_copt_apply co) (ls_sopt so) veq veq);
+  eapply (hypcluster_runs_eq_fedavg (ls_grad_reg reg) split_key ls_split_pair ls_copt_init (ls_copt_apply co) (ls_sopt so) veq veq);
     try eassumption; try reflexivity.
   - apply ls_copt_init_proper.
   - intros. apply ls_apply_proper; assumption.
   - intros. apply ls_apply_length; assumption.
-  - intros. apply batch_grad_proper; assumption.
-  - intros. apply batch_grad_length.
+  - intros. apply ls_grad_reg_proper; assumption.
+  - intros. apply ls_grad_reg_length.
   - intros. apply ls_apply_proper; assumption.
   - left. exact Hpos.
   - intros a b H. symmetry. exact H.
@@ -800,20 +810,20 @@ Proof.
 Qed.
 
 (* HypCluster, one cluster, plain-SGD server: every history, empty rounds included *)
-Lemma ls_hypcluster_runs_plain co so (cohorts : list (list lsclient)) p os : o_mom so == 0 ->
+Lemma ls_hypcluster_runs_plain reg co so (cohorts : list (list lsclient)) p os : o_mom so == 0 ->
   Forall (fun cl => NoDup (map c_id cl)) cohorts ->
   exists q s q' s' dgs,
-    iter_rounds (hypcluster ls_grad split_key ls_split_pair ls_copt_init (ls_copt_apply co) (ls_sopt so) (fun _ => O)) [(p, os)] cohorts
+    iter_rounds (hypcluster (ls_grad_reg reg) split_key ls_split_pair ls_copt_init (ls_copt_apply co) (ls_sopt so) (fun _ => O)) [(p, os)] cohorts
       = Some [(q, s)] /\
-    fedavg_runs ls_grad split_key ls_copt_init (ls_copt_apply co) (ls_sopt so) (p, os) (map (map (rekey ls_split_pair)) cohorts)
+    fedavg_runs (ls_grad_reg reg) split_key ls_copt_init (ls_copt_apply co) (ls_sopt so) (p, os) (map (map (rekey ls_split_pair)) cohorts)
       = Some (q', s', dgs) /\ q =v= q'.
 Proof.
   intros Hm ND.
-  destruct (hypcluster_runs_eq_fedavg ls_grad split_key ls_split_pair ls_copt_init (ls_copt_apply co) (ls_sopt so) veq any_state
+  destruct (hypcluster_runs_eq_fedavg (ls_grad_reg reg) split_key ls_split_pair ls_copt_init (ls_copt_apply co) (ls_sopt so) veq any_state
               ls_copt_init_proper
               (fun g g' s s' p p' Eg Es Ep => ls_apply_proper co g g' s s' p p' Eg Es Ep)
               (fun g s p L => ls_apply_length co g s p L)
-              (fun p p' b u E => batch_grad_proper p p' b u E) (fun p b u => batch_grad_length p b u)
+              (fun p p' b u E => ls_grad_reg_proper reg p p' b u E) (fun p b u => ls_grad_reg_length reg p b u)
               (ls_sopt_plain_proper so Hm) cohorts p p os os ND ltac:(reflexivity) I
               (or_intror (ls_sopt_plain_zero so Hm)) (fun _ => I) (fun _ _ _ => I) (fun _ _ _ _ _ => I))
     as [q [s [q' [s' [dgs [H1 [H2 [Eq _]]]]]]]].
@@ -821,33 +831,33 @@ Proof.
 Qed.
 
 (* MimeLite with plain SGD and server learning rate 1 *)
-Lemma ls_mimelite_runs co (cohorts : list (list (mclient (K := key) (B := list example)))) p s os : o_mom co == 0 ->
+Lemma ls_mimelite_runs reg co (cohorts : list (list (mclient (K := key) (B := list example)))) p s os : o_mom co == 0 ->
   Forall (fun cl => NoDup (map c_id (map fst cl))) cohorts ->
   exists q s1 q' os1 dgs,
-    iter_rounds (mimelite ls_grad split_key (ls_copt_apply co) 1) (p, s) cohorts = Some (q, s1) /\
-    fedavg_runs ls_grad split_key ls_copt_init (ls_copt_apply co) (ls_sopt (mkSgd 1 0 false)) (p, os) (map (map fst) cohorts)
+    iter_rounds (mimelite (ls_grad_reg reg) split_key (ls_copt_apply co) 1) (p, s) cohorts = Some (q, s1) /\
+    fedavg_runs (ls_grad_reg reg) split_key ls_copt_init (ls_copt_apply co) (ls_sopt (mkSgd 1 0 false)) (p, os) (map (map fst) cohorts)
       = Some (q', os1, dgs) /\ q =v= q'.
 Proof.
   intros Hm ND.
-  apply (mimelite_runs_eq_fedavg ls_grad split_key ls_copt_init (ls_copt_apply co) (ls_sopt (mkSgd 1 0 false)) veq
+  apply (mimelite_runs_eq_fedavg (ls_grad_reg reg) split_key ls_copt_init (ls_copt_apply co) (ls_sopt (mkSgd 1 0 false)) veq
            ls_copt_init_proper
            (fun g g' s s' p p' Eg Es Ep => ls_apply_proper co g g' s s' p p' Eg Es Ep)
            (fun g s p L => ls_apply_length co g s p L)
-           (fun p p' b u E => batch_grad_proper p p' b u E) (fun p b u => batch_grad_length p b u)
+           (fun p p' b u E => ls_grad_reg_proper reg p p' b u E) (fun p b u => ls_grad_reg_length reg p b u)
            (o_lr co) (fun g s p L => sgd_apply_plain co g s p Hm L)
            cohorts p p s os (fun g o q L => sgd1_is_vsub g o q L) ND).
   reflexivity.
 Qed.
 
 (* Mime with plain SGD and one local step *)
-Lemma ls_mime_runs co slr (cohorts : list (list (mclient (K := key) (B := list example)))) p s : o_mom co == 0 ->
+Lemma ls_mime_runs reg co slr (cohorts : list (list (mclient (K := key) (B := list example)))) p s : o_mom co == 0 ->
   Forall (fun cl => NoDup (map c_id (map fst cl)) /\ Forall one_step_client cl /\ (0 < total_examples (map fst cl))%Z) cohorts ->
-  exists q s1, iter_rounds (mime ls_grad split_key (ls_copt_apply co) slr) (p, s) cohorts = Some (q, s1) /\
-    fullbatch_chain ls_grad split_key (o_lr co) slr p cohorts q.
+  exists q s1, iter_rounds (mime (ls_grad_reg reg) split_key (ls_copt_apply co) slr) (p, s) cohorts = Some (q, s1) /\
+    fullbatch_chain (ls_grad_reg reg) split_key (o_lr co) slr p cohorts q.
 Proof.
   intros Hm H.
-  apply (mime_runs_fullbatch ls_grad split_key (ls_copt_apply co)
-           (fun g s p L => ls_apply_length co g s p L) (fun p b u => batch_grad_length p b u)
+  apply (mime_runs_fullbatch (ls_grad_reg reg) split_key (ls_copt_apply co)
+           (fun g s p L => ls_apply_length co g s p L) (fun p b u => ls_grad_reg_length reg p b u)
            (o_lr co) (fun g s p L => sgd_apply_plain co g s p Hm L) slr cohorts p s H).
 Qed.
 
@@ -957,9 +967,9 @@ End ControlVariate.
 Lemma hypcluster_unguarded_refuted :
   exists co so (cohorts : list (list (client (K := key) (B := list example)))) p os q s q' s' dgs,
     Forall (fun cl => NoDup (map c_id cl)) cohorts /\
-    iter_rounds (hypcluster ls_grad split_key ls_split_pair ls_copt_init (ls_copt_apply co) (ls_sopt so) (fun _ => O)) [(p, os)] cohorts
+    iter_rounds (hypcluster (ls_grad_reg 0) split_key ls_split_pair ls_copt_init (ls_copt_apply co) (ls_sopt so) (fun _ => O)) [(p, os)] cohorts
       = Some [(q, s)] /\
-    fedavg_runs ls_grad split_key ls_copt_init (ls_copt_apply co) (ls_sopt so) (p, os) (map (map (rekey ls_split_pair)) cohorts)
+    fedavg_runs (ls_grad_reg 0) split_key ls_copt_init (ls_copt_apply co) (ls_sopt so) (p, os) (map (map (rekey ls_split_pair)) cohorts)
       = Some (q', s', dgs) /\ ~ q =v= q'.
 Proof.
   exists (mkSgd (1 # 2) 0 false), (mkSgd 1 (1 # 2) false),
